@@ -763,7 +763,7 @@ Definition tt := retable %(sp)s %(fp)s %(cp)s %(dp)s t0.
 Definition v : str := %(v)s.
 Definition e : ec := %(ec)s.
 Definition lenc (l : level) := leaf_enc v l e.
-Definition check (t : tables) (c : list op * list N) : option nat := run_check t e lenc init_rstate (fst c) (snd c) 0.
+Definition check (t : tables) (c : list op * list N) : option nat := run_check t e lenc true init_rstate (fst c) (snd c) 0.
 Fixpoint failing (t : tables) (n : nat) (l : list (list op * list N)) : list nat :=
   match l with
   | [] => []
@@ -856,7 +856,7 @@ def model_observations(version, ops, upto=None):
     """the model's observation strings for a history (diagnostics for a disagreement)"""
     ops = ops if upto is None else ops[:upto + 1]
     text = prelude(version, seg_names_of([(ops, None)])) + 'Definition ops : list op := [%s].\n' % ';\n  '.join(coq_op(o) for o in ops)
-    text += 'Eval vm_compute in map BS (run_observe tt e lenc init_rstate ops).\n'
+    text += 'Eval vm_compute in map BS (run_observe tt e lenc true init_rstate ops).\n'
     rc, out = coq_eval('heapdiag_%d' % os.getpid(), text, timeout=600)
     if rc != 0:
         return None, out
